@@ -41,6 +41,7 @@ func init() {
 		"SameArray":       inSameArray,
 		"IsSymbolic":      inIsSymbolic,
 		"LibStaticWrites": inLibStaticWrites,
+		"StaticWriteInfo": inStaticWriteInfo,
 		"EndPath":         inEndPath,
 		"WrotePrint":      func(fr *frame, args []value) value { return fr.path().wrotePrint },
 		"Concretize":      inConcretize,
@@ -264,4 +265,33 @@ func inSameArray(fr *frame, args []value) value {
 		return false
 	}
 	panic(unsupported("SameArray on concrete pointers"))
+}
+
+// StaticWriteInfo(): description of the first write to static memory performed by
+// library code on this path ("" if none).
+func inStaticWriteInfo(fr *frame, args []value) value {
+	k := int(asInt64(args[0]))
+	for _, w := range fr.path().staticWrites {
+		if !w.WriterHarness && !w.OwnerHarness {
+			if k == 0 {
+				return shortName(w.Owner) + " written by " + shortName(w.Writer)
+			}
+			k--
+		}
+	}
+	return "(write not recorded)"
+}
+
+func shortName(s string) string {
+	const p = "github.com/z7zmey/php-parser/"
+	out := ""
+	for len(s) > 0 {
+		if len(s) >= len(p) && s[:len(p)] == p {
+			s = s[len(p):]
+			continue
+		}
+		out += s[:1]
+		s = s[1:]
+	}
+	return out
 }
